@@ -12,6 +12,7 @@ import (
 	"net/http"
 	"net/http/httptest"
 	"runtime"
+	"sort"
 	"strings"
 	"sync"
 	"testing"
@@ -30,7 +31,9 @@ import (
 )
 
 type c18fAnswer struct {
-	kind    string // honest, tamper-<k>, different, 404, 5xx, hang
+	kind    string // honest, tamper-<k>, different, 404, 5xx, hang, status-<code>
+	carries string // status-<code> only: honest, tamper-<k>, different, nothing
+	hasText bool   // the body is a collection record (whatever the status)
 	detail  string
 	status  int
 	text    string
@@ -106,11 +109,13 @@ func (s *c18fServer) ServeHTTP(w http.ResponseWriter, r *http.Request) {
 		return
 	}
 	w.Header().Set("Content-Type", "application/json")
-	if slot.ans.status != http.StatusOK {
+	if !slot.ans.hasText {
 		w.WriteHeader(slot.ans.status)
 		fmt.Fprintf(w, `{"errors":["stub %d"]}`, slot.ans.status)
 		return
 	}
+	// a collection record, with status 200 or with any other status
+	w.WriteHeader(slot.ans.status)
 	json.NewEncoder(w).Encode(map[string]interface{}{
 		"kind":               "arvados#collection",
 		"uuid":               slot.id + "-4zz18-0123456789abcde",
@@ -156,6 +161,12 @@ func TestVerifC18LegacyFanOut(t *testing.T) {
 			fedgen.SignAll(t, m)
 			decoLabels = append(decoLabels, "all-locators-signed")
 		}
+		var big fedgen.BigInfo
+		if rapid.IntRange(0, 29).Draw(t, "big")%15 == 7 {
+			// 1-3 stream lines of 50-280 KiB
+			big = fedgen.Inflate(t, m, allSigned)
+			decoLabels = append(decoLabels, big.Labels()...)
+		}
 		honest := m.Text()
 		other := mgen.Gen(t, mgen.GenOpts{Signed: true, MaxStreams: 2, MaxBlocks: 3, MaxFiles: 3}).Text()
 		truePDH := ref.PDH(honest)
@@ -167,7 +178,7 @@ func TestVerifC18LegacyFanOut(t *testing.T) {
 		defer close(abort)
 
 		drawAnswer := func(label string, allowHang bool) c18fAnswer {
-			kinds := []string{"tamper", "tamper", "tamper", "different", "404", "404", "5xx", "honest", "honest", "honest"}
+			kinds := []string{"tamper", "tamper", "tamper", "different", "404", "404", "5xx", "honest", "honest", "honest", "status", "status", "status"}
 			if allowHang {
 				kinds = append(kinds, "hang")
 			}
@@ -190,8 +201,30 @@ func TestVerifC18LegacyFanOut(t *testing.T) {
 				a.status = http.StatusNotFound
 			case "5xx":
 				a.status = rapid.SampledFrom([]int{500, 502, 503}).Draw(t, label+"Status")
+			case "status":
+				// another 2xx, a 3xx or a 4xx (occasionally 404/500) whose
+				// body nevertheless is a collection record
+				a.status = rapid.SampledFrom([]int{201, 202, 203, 206, 299, 301, 400, 401, 403, 410, 422, 404, 500}).Draw(t, label+"Status")
+				a.kind = fmt.Sprintf("status-%d", a.status)
+				a.carries = rapid.SampledFrom([]string{"honest", "honest", "tamper", "tamper", "different", "nothing"}).Draw(t, label+"Carries")
+				switch a.carries {
+				case "honest":
+					a.text = honest
+				case "tamper":
+					tk := rapid.SampledFrom(fedgen.TamperKinds).Draw(t, label+"Tamper")
+					var d string
+					a.text, d = fedgen.Tamper(t, honest, tk)
+					if d == "" {
+						a.carries, a.text = "different", other
+					} else {
+						a.carries, a.detail = "tamper-"+tk, d
+					}
+				case "different":
+					a.text = other
+				}
 			}
-			if a.status == http.StatusOK && a.kind != "hang" {
+			a.hasText = (a.status == http.StatusOK || a.carries != "" && a.carries != "nothing") && a.kind != "hang"
+			if a.hasText {
 				// the record's own portable_data_hash: what was asked for
 				// (a remote that wants to be believed), or the truth
 				if rapid.IntRange(0, 3).Draw(t, label+"Field") < 3 {
@@ -199,7 +232,7 @@ func TestVerifC18LegacyFanOut(t *testing.T) {
 				} else {
 					a.field = ref.PDH(a.text)
 				}
-				a.valid = ref.PDH(a.text) == req
+				a.valid = ref.PDH(a.text) == req // (of the text; only a 200 answer is an honest answer)
 				a.certain = a.valid && a.field == req && a.kind == "honest" && allSigned
 			}
 			return a
@@ -348,38 +381,49 @@ func TestVerifC18LegacyFanOut(t *testing.T) {
 		describe := func() string {
 			var sb strings.Builder
 			fmt.Fprintf(&sb, "GET /arvados/v1/collections/%s (%s; true PDH %s) mode=%s settle=%v\n", req, reqKind, truePDH, mode, settle)
-			fmt.Fprintf(&sb, "honest text: %q\n", honest)
-			fmt.Fprintf(&sb, "local %s: %s status=%d valid=%v text=%q\n", ids[0], localAns.kind, localAns.status, localAns.valid, localAns.text)
-			for _, s := range slots {
-				fmt.Fprintf(&sb, "remote %s: %s (%s) status=%d field=%q valid=%v certain=%v text=%q\n", s.id, s.ans.kind, s.ans.detail, s.ans.status, s.ans.field, s.ans.valid, s.ans.certain, s.ans.text)
+			if big.Streams > 0 {
+				fmt.Fprintf(&sb, "%s\n", big)
 			}
-			fmt.Fprintf(&sb, "release order: %v\nresponse: %d %s\n", releasedOrder, resp.StatusCode, string(body))
+			fmt.Fprintf(&sb, "honest text: %q\n", fedgen.Abbrev(honest))
+			fmt.Fprintf(&sb, "local %s: %s carries=%q status=%d text-valid=%v text=%q\n", ids[0], localAns.kind, localAns.carries, localAns.status, localAns.valid, fedgen.Abbrev(localAns.text))
+			for _, s := range slots {
+				fmt.Fprintf(&sb, "remote %s: %s (%s) carries=%q status=%d field=%q text-valid=%v certain=%v text=%q\n", s.id, s.ans.kind, s.ans.detail, s.ans.carries, s.ans.status, s.ans.field, s.ans.valid, s.ans.certain, fedgen.Abbrev(s.ans.text))
+			}
+			fmt.Fprintf(&sb, "release order: %v\nresponse: %d %s\n", releasedOrder, resp.StatusCode, fedgen.Abbrev(string(body)))
 			return sb.String()
 		}
 
 		labels := append([]string{"cases", "req:" + reqKind, "local:" + localAns.kind, fmt.Sprintf("remotes:%d", nrem), "mode:" + mode}, decoLabels...)
 		winner := ""
-		if resp.StatusCode == http.StatusOK {
-			var out struct {
-				ManifestText string `json:"manifest_text"`
-			}
-			if err := json.Unmarshal(body, &out); err != nil {
-				t.Fatalf("C18 violated (legacy fan-out): 200 response is not a collection record: %v\n%s", err, describe())
-			}
-			got := out.ManifestText
+		// Is the client handed a manifest? Whatever the status line says: a
+		// response whose body is a record with a manifest_text is one (API
+		// clients differ in which statuses they take for success).
+		var out struct {
+			ManifestText *string `json:"manifest_text"`
+		}
+		handed := json.Unmarshal(body, &out) == nil && out.ManifestText != nil
+		if resp.StatusCode == http.StatusOK && !handed {
+			t.Fatalf("C18 violated (legacy fan-out): 200 response is not a collection record\n%s", describe())
+		}
+		if handed {
+			got := *out.ManifestText
 			// The local cluster's own answer is passed through as is (it is
 			// not "fetched from a remote cluster"); the property only wants it
 			// unchanged.
 			var diffs []string
-			if localAns.status == http.StatusOK && got == localAns.text {
+			if localAns.hasText && got == localAns.text {
 				winner = "local"
 			}
 			if p := ref.PDH(got); p != req && winner != "local" {
-				t.Fatalf("C18 violated (legacy fan-out): 200 response for %s carries a manifest with reference PDH %s\n%s", req, p, describe())
+				t.Fatalf("C18 violated (legacy fan-out): the %d response for %s carries a manifest with reference PDH %s\n%s", resp.StatusCode, req, p, describe())
 			}
+			byStatus := append([]*c18fSlot(nil), slots...)
+			sort.SliceStable(byStatus, func(i, j int) bool {
+				return byStatus[i].ans.status == http.StatusOK && byStatus[j].ans.status != http.StatusOK
+			})
 			if winner == "" {
-				for _, s := range slots {
-					if s.ans.status != http.StatusOK || s.ans.kind == "hang" {
+				for _, s := range byStatus {
+					if !s.ans.hasText {
 						continue
 					}
 					want := fedgen.RefRewrite(s.ans.text, s.id)
@@ -388,19 +432,26 @@ func TestVerifC18LegacyFanOut(t *testing.T) {
 						if !s.ans.valid {
 							t.Fatalf("C18 violated (legacy fan-out): the answer of remote %s (%s) was relayed although it does not hash to the request\n%s", s.id, s.ans.kind, describe())
 						}
-						labels = append(labels, "winner:remote-"+s.ans.kind)
+						if s.ans.carries != "" {
+							labels = append(labels, "winner:remote-non-200-status")
+						} else {
+							labels = append(labels, "winner:remote-"+s.ans.kind)
+						}
 						break
 					}
 					diffs = append(diffs, "vs remote "+s.id+": "+fedgen.DiffTokens(got, want))
 				}
 			}
 			if winner == "" {
-				t.Fatalf("C18 violated (legacy fan-out): relayed manifest is not what any cluster sent with only +A -> +R<id>-\nreturned: %q\n%s\n%s", got, strings.Join(diffs, "\n"), describe())
+				t.Fatalf("C18 violated (legacy fan-out): relayed manifest is not what any cluster sent with only +A -> +R<id>-\nreturned: %q\n%s\n%s", fedgen.Abbrev(got), strings.Join(diffs, "\n"), describe())
 			}
 			if winner == "local" {
 				labels = append(labels, "winner:local")
 			}
-			labels = append(labels, "outcome:200")
+			labels = append(labels, fmt.Sprintf("outcome:%d-with-manifest", resp.StatusCode))
+			if big.Streams > 0 && winner != "local" {
+				labels = append(labels, "big:relayed-from-remote")
+			}
 		} else {
 			if expectSuccess {
 				t.Fatalf("C18 violated (legacy fan-out): the local cluster answered 404 and a remote holds the requested collection (fully signed), but the response is %d\n%s", resp.StatusCode, describe())
@@ -409,7 +460,7 @@ func TestVerifC18LegacyFanOut(t *testing.T) {
 		}
 		// cancellation of outstanding requests is asynchronous on a real
 		// connection, so it is only measured, never judged
-		if resp.StatusCode == http.StatusOK && winner != "local" {
+		if handed && winner != "local" {
 			for _, s := range slots {
 				if s.ans.kind == "hang" {
 					s.mu.Lock()
@@ -430,10 +481,33 @@ func TestVerifC18LegacyFanOut(t *testing.T) {
 		invalid200 := 0
 		seen := map[string]bool{}
 		for _, s := range slots {
-			if s.ans.status == http.StatusOK && s.ans.kind != "hang" && !s.ans.valid {
+			if s.ans.hasText && !s.ans.valid {
 				invalid200++
 			}
 			l := "remote:" + s.ans.kind
+			if s.ans.carries != "" {
+				cl := "4xx(not-404)"
+				switch {
+				case s.ans.status == 404 || s.ans.status >= 500:
+					cl = "404/5xx"
+				case s.ans.status < 300:
+					cl = "2xx(not-200)"
+				case s.ans.status < 400:
+					cl = "3xx"
+				}
+				switch {
+				case !s.ans.hasText:
+					cl += "/no-record"
+				case s.ans.valid:
+					cl += "/carrying-valid-manifest"
+				default:
+					cl += "/carrying-invalid-manifest"
+				}
+				if !seen["remote:status-"+cl] {
+					seen["remote:status-"+cl] = true
+					labels = append(labels, "remote:status-"+cl)
+				}
+			}
 			if !seen[l] {
 				seen[l] = true
 				labels = append(labels, l)
@@ -461,7 +535,7 @@ func TestVerifC18LegacyFanOut(t *testing.T) {
 		}
 		var ks []string
 		for _, s := range slots {
-			ks = append(ks, s.id+s.ans.kind+s.ans.detail+s.ans.field)
+			ks = append(ks, s.id+s.ans.kind+s.ans.carries+s.ans.detail+s.ans.field)
 		}
 		for i := range labels {
 			labels[i] = "fan:" + labels[i]
